@@ -1155,6 +1155,33 @@ func ruleC01Like(c *Ctx) {
 		}
 	}
 	c.Check(len(why) == 0, "c01.like-escape", key, c.P.Pos(matchCall.Pos()), "QuoteMeta inside; _ and % only; anchored; same case fold: "+pat.String(), strings.Join(why, "; "))
+	// the text that is matched: a number is matched by its decimal text (TextOf), as everywhere else a number meets a
+	// string; the %v text writes 1000000.0 as 1e+06, so `n LIKE '1000000'` misses the row `n = '1000000'` keeps
+	var whyText []string
+	pctV := func(t *Term) bool {
+		return t != nil && t.Contains(func(x *Term) bool {
+			a, ok := callArgs(x, "fmt.Sprintf")
+			return ok && len(a) >= 1 && a[0].Name == `"%v"`
+		})
+	}
+	if len(matchCall.Common().Args) >= 2 && pctV(tbd.Of(matchCall.Common().Args[1])) {
+		whyText = append(whyText, "the subject is matched by its %v text at "+c.P.Pos(matchCall.Pos()))
+	}
+	for _, g := range c.P.pkgFuncs(modPath) {
+		gtb := NewTB()
+		allInstrs(g, func(_ *ssa.BasicBlock, in ssa.Instruction) {
+			call, ok := in.(*ssa.Call)
+			if !ok || call.Common().StaticCallee() != like {
+				return
+			}
+			for _, a := range call.Common().Args {
+				if pctV(gtb.Of(a)) {
+					whyText = append(whyText, "an operand of LIKE is rendered with %v at "+c.P.Pos(call.Pos()))
+				}
+			}
+		})
+	}
+	c.Check(len(whyText) == 0, "c01.like-escape", key+"/decimal-text", c.P.Pos(like.Pos()), "numbers are matched by their decimal text", strings.Join(uniq(whyText), "; ")+": a float64 of 1e6 and above (or below 1e-4) is matched as its exponent form (`1000000 LIKE '1000000'` is false, `LIKE '1e+06'` true)")
 	// every return of the LIKE function is the regexp's verdict (no shortcut that bypasses the translation)
 	{
 		paths, err := WalkFunc(like, WalkCfg{MaxVisits: 1})
